@@ -45,7 +45,8 @@ func c18Ops(r *RNG, st *struct {
 	switch r.Intn(24) {
 	case 0, 1:
 		st.sigKind = 0
-		return bopGen{"BFunction", "Function", func(c *build.Context) { c.Function(fmt.Sprintf("f%d", r.Intn(1000))) }, "", 0}
+		// label names start again with every function: l1, l2, ... are used in each function of the file
+		return bopGen{"BFunction", "Function", func(c *build.Context) { st.labels = 0; c.Function(fmt.Sprintf("f%d", r.Intn(1000))) }, "", 0}
 	case 2:
 		return bopGen{"BAttributes", "Attributes", func(c *build.Context) { c.Attributes(attr.NOSPLIT) }, "", 0}
 	case 3:
